@@ -19,14 +19,38 @@ def ux():
     return _ux
 
 
-def grid_from_mesh(m, width=None, extra=None):
+LAYOUTS = ["C", "F", "T", "strided"]
+
+
+def with_layout(a, layout):
+    """Same values, other memory layout: C (row-major, fresh), F (column-major), T (transposed view of a
+    row-major array), strided (every second column / element of a wider array)."""
+    a = np.asarray(a)
+    if layout == "C" or a.ndim == 0:
+        return np.array(a, order="C")
+    if layout == "F":
+        return np.asfortranarray(a)
+    if layout == "T":
+        return np.ascontiguousarray(a.T).T
+    if layout == "strided":
+        if a.ndim == 1:
+            w = np.zeros(2 * a.shape[0], dtype=a.dtype)
+            w[::2] = a
+            return w[::2]
+        w = np.full((a.shape[0], 2 * a.shape[1]), -7, dtype=a.dtype)
+        w[:, ::2] = a
+        return w[:, ::2]
+    raise ValueError(layout)
+
+
+def grid_from_mesh(m, width=None, extra=None, layout="C"):
     """Grid via the explicit-topology constructor with standard-form inputs (fresh arrays)."""
     lon, lat = m.lonlat()
-    conn = m.padded(width=width)
-    kw = dict(extra or {})
+    conn = with_layout(m.padded(width=width), layout)
+    kw = {k: with_layout(v, layout) for k, v in dict(extra or {}).items()}
     return ux().Grid.from_topology(
-        node_lon=np.array(lon), node_lat=np.array(lat), face_node_connectivity=conn,
-        fill_value=INT_FILL, start_index=0, **kw
+        node_lon=with_layout(lon, "strided" if layout == "strided" else "C"), node_lat=with_layout(lat, "strided" if layout == "strided" else "C"),
+        face_node_connectivity=conn, fill_value=INT_FILL, start_index=0, **kw
     )
 
 
@@ -44,7 +68,7 @@ def padding_at_end(arr, fill=INT_FILL):
     return bool(np.all(isf[:, 1:] >= isf[:, :-1]))
 
 
-def standard_table(da, target_size=None, name=""):
+def standard_table(da, target_size=None, name="", padding_position=True):
     """Returns list of problems with a connectivity DataArray's form."""
     probs = []
     a = np.asarray(da.values if hasattr(da, "values") else da)
@@ -54,7 +78,7 @@ def standard_table(da, target_size=None, name=""):
     if hasattr(da, "attrs") and "_FillValue" in da.attrs:
         if da.attrs["_FillValue"] != INT_FILL:
             probs.append("_FillValue attr=%r" % (da.attrs["_FillValue"],))
-    if not padding_at_end(a):
+    if padding_position and not padding_at_end(a):
         probs.append("padding not at row end")
     nf = a[a != INT_FILL]
     if nf.size and nf.min() < 0:
